@@ -172,7 +172,7 @@ def r2(run, ctx):
                      'the wrapper frees the slot before the body runs' % f.qualname)
         else:
             run.ok('R2', '%s: synchronous function' % f.qualname)
-    run.count('R2', n, 15, '@synchronized functions')
+    run.count('R2', n, 10, '@synchronized functions')
 
 
 def _commands(ctx):
@@ -189,7 +189,7 @@ def _commands(ctx):
 def r3(run, ctx):
     run.rule('R3', 'commands reach mutators only through the exclusive slot')
     cmds = _commands(ctx)
-    run.count('R3', len(cmds), 20, 'registered commands')
+    run.count('R3', len(cmds), 15, 'registered commands')
     roots = dict(cmds)
     for nm, e in sorted(roots.items()):
         if nm in EXEMPT:
@@ -242,7 +242,7 @@ def r4(run, ctx):
                   'half-way through the operation' % (
                       f.qualname, nested[0][1][0].qualname if nested else ''),
                   path=ctx.cg.chain(seen, nested[0][0]) if nested else None)
-    run.count('R4', n, 15, '@synchronized functions')
+    run.count('R4', n, 10, '@synchronized functions')
 
 
 def r5(run, ctx):
@@ -265,7 +265,7 @@ def r5(run, ctx):
                                 swallowed = True
                 run.check('R5', not swallowed, "'%s' lets the ConflictError propagate to dispatch"
                           % nm, e, s.node.ast, "'%s' swallows the conflict refusal" % nm)
-    run.count('R5', n, 12, 'synchronized calls made by commands')
+    run.count('R5', n, 8, 'synchronized calls made by commands')
     d = ctx.fn('circus.controller:Controller.dispatch')
     okm = False
     for t in ast.walk(d.node):
